@@ -2,7 +2,7 @@
 """Random well-formed extension vocabulary layered on ActivityStreams, in the shape of astool/toot.jsonld."""
 import json, random, sys
 
-AS_TYPES = ["Object", "Activity", "IntransitiveActivity", "Note", "Article", "Collection", "OrderedCollection", "Person", "Link", "Image", "Document", "Create", "Place", "Question"]
+AS_TYPES = ["Object", "Activity", "IntransitiveActivity", "Note", "Article", "Collection", "OrderedCollection", "Person", "Link", "Image", "Document", "Create", "Place", "Question", "Travel"]
 XSD = ["xsd:string", "xsd:boolean", "xsd:float", "xsd:nonNegativeInteger", "xsd:dateTime", "xsd:duration", "xsd:anyURI"]
 
 def as_ref(n):
@@ -32,15 +32,20 @@ def adversarial():
         cls("X0Bottom", [own("X0Left"), own("X0Right")]),
         cls("X0Deep", [own("X0Left"), own("X0Bottom"), as_ref("Document")]),
         cls("X0Mixed", [as_ref("Note"), own("X0Base")]),
+        cls("X0Deeper", [own("X0Deep")]),                      # two levels below X0Bottom, from which x0kept is withheld
+        cls("X0Trip", [as_ref("Travel")]),                     # two levels below as:IntransitiveActivity, which has no 'object'
+        cls("X0Ask", [as_ref("Question"), own("X0Base")]),
         prop("x0first", [own("X0Left"), as_ref("Note"), as_ref("Article")], ["xsd:string"]),
         prop("x0second", [as_ref("Person"), own("X0Right"), as_ref("Collection")], [own("X0Bottom"), as_ref("Link"), "xsd:anyURI"], functional=True),
         prop("x0words", [own("X0Base")], ["xsd:string", "rdf:langString"]),
         prop("x0word", [own("X0Base"), as_ref("Activity")], ["xsd:string", "rdf:langString"], functional=True),
         prop("x0kept", [own("X0Base")], ["xsd:dateTime", "xsd:duration"], without=[own("X0Bottom")]),
         prop("x0count", [own("X0Mixed"), as_ref("Question")], ["xsd:nonNegativeInteger", "xsd:boolean", "xsd:float"]),
+        prop("x0title", [own("X0Base"), own("X0Trip")], ["xsd:string", "rdf:langString"]),
+        prop("x0motto", [own("X0Trip")], ["rdf:langString", "xsd:string"], functional=True),
     ]
     ctx = gen(1)[0]["@context"]
-    return {"@context": ctx, "id": ns, "type": "owl:Ontology", "name": "Ext0", "members": members}, ["X0Base", "X0Left", "X0Right", "X0Bottom", "X0Deep", "X0Mixed"], ns
+    return {"@context": ctx, "id": ns, "type": "owl:Ontology", "name": "Ext0", "members": members}, ["X0Base", "X0Left", "X0Right", "X0Bottom", "X0Deep", "X0Mixed", "X0Deeper", "X0Trip", "X0Ask"], ns
 
 
 def gen(seed):
@@ -61,7 +66,7 @@ def gen(seed):
             if types and r.random() < 0.4:
                 p = own_ref(r.choice(types))
             else:
-                p = as_ref(r.choice(["Object", "Activity", "Note", "Collection", "Person", "Document", "Place"]))
+                p = as_ref(r.choice(["Object", "Activity", "Note", "Collection", "Person", "Document", "Place", "Travel", "Question", "Arrive"]))
             if p not in parents:
                 parents.append(p)
         # two parents must not be disjoint in ActivityStreams: Object-family only (no Link)
